@@ -26,11 +26,12 @@ func main() {
 		only := fs.String("only", "", "restrict to functions containing this text")
 		dump := fs.String("dump", "", "dump queries to this directory")
 		noReplay := fs.Bool("noreplay", false, "do not replay counterexamples")
+		noEvidence := fs.Bool("noevidence", false, "do not write the evidence file (selftest runs)")
 		fs.Parse(os.Args[2:])
 		if t := os.Getenv("VERIF_TIER"); t != "" && *tier == "" {
 			*tier = t
 		}
-		o := CheckOpts{Prop: *prop, Tier: *tier, Repo: *repo, Verif: *verif, Timeout: *timeout, Jobs: *jobs, Only: *only, Dump: *dump, NoReplay: *noReplay}
+		o := CheckOpts{Prop: *prop, Tier: *tier, Repo: *repo, Verif: *verif, Timeout: *timeout, Jobs: *jobs, Only: *only, Dump: *dump, NoReplay: *noReplay, NoEvidence: *noEvidence}
 		if s := os.Getenv("VERIF_SEED"); s != "" {
 			o.Seed, _ = strconv.ParseInt(s, 10, 64)
 		}
